@@ -51,3 +51,14 @@ def _root_.NASim.Load.Y.isNull : Y → Bool | .null => true | _ => false
 /-- `x <= k` for a number `k` (refused for non-numbers: rejection) -/
 def yle (x : Y) (k : Int) : Bool := match x.toRat? with | some q => decide (q ≤ (k : Rat)) | none => false
 end NASim.PyRt
+
+namespace NASim.PyRt
+open NASim.Load
+/-- `k in TABLE` / `TABLE[k]` for one of the loader's key tables (key → name of the expected type) and a YAML key -/
+def tableHas (t : List (String × String)) (k : Y) : Bool := match k with | .str s => (t.lookup s).isSome | _ => false
+def tableGet (t : List (String × String)) (k : Y) : String := match k with | .str s => (t.lookup s).getD "" | _ => ""
+/-- `isinstance(v, T)` for the type names the tables use -/
+def isInstanceOf (v : Y) (ty : String) : Bool :=
+  if ty == "list" then v.isList else if ty == "map" then v.isMap else if ty == "number" then v.toRat?.isSome
+  else if ty == "int" then v.intLike?.isSome else if ty == "str" then v.isStr else false
+end NASim.PyRt
